@@ -25,7 +25,10 @@ RULE = ('Hypothesis rule-based state machine (<= 12 steps); every history runs i
 ASSUMPTIONS = ['after a timeout the abandoned student thread is joined (<= 3 s) before the invariant is read: C05 judges the '
                'quiescent state, the race is C14\'s subject',
                'the sys.modules baseline is taken after one warm-up execution of the benign modes so that lazy imports by pedal '
-               'itself are not counted']
+               'itself are not counted',
+               'nested executions (an instructor helper installed with mock_function that calls student code while a run is active) are '
+               'generated in one thread only, without timeouts and without injected faults: the property lists nested imports, the nested '
+               'call is an extension taken from a seeded change']
 MIN_NONTRIVIAL = {'quick': 30, 'thorough': 30}
 
 HELPER = 'def helper_value():\n    return 7\nprint("helper loaded")\n'
@@ -54,7 +57,7 @@ BASE = ('import sys\n'
 MODES = ['normal', 'value-error', 'key-error', 'bad-str', 'system-exit', 'keyboard-interrupt', 'generator-exit', 'base-exception',
          'busy-loop', 'block-forever', 'replace-stdout', 'replace-sleep', 'import-json', 'recursion', 'close-stdout', 'close-stdout-then-print']
 ABNORMAL = set(MODES) - {'normal', 'import-json'}
-ENTRIES = ['run', 'call', 'evaluate', 'import']
+ENTRIES = ['run', 'call', 'evaluate', 'import', 'nested']
 # "pedal itself failed while recording": one of the sandbox's own recording steps raises once during the execution
 FAULTS = ['append_output', '_capture_exception']
 
@@ -168,10 +171,12 @@ class ChildState:
                     sb.threaded = True
                 sb.tracer_style = op['tracer']
                 mode, entry = op['mode'], op['entry']
+                if entry == 'nested' and mode in ('busy-loop', 'block-forever'):
+                    entry = 'call'
                 if mode == 'block-forever' and op['tracer'] == 'coverage':
                     self.blocked_under_coverage = True
                 what = '%s(%s, threaded=%s, tracer=%s)' % (entry, mode, sb.threaded, op['tracer'])
-                fault = op.get('fault')
+                fault = op.get('fault') if entry != 'nested' else None
                 if fault:
                     what += ' with an injected failure in %s' % fault
 
@@ -185,6 +190,16 @@ class ChildState:
                     sb.call('finish', mode)
                 elif entry == 'evaluate':
                     sb.evaluate('finish(%r)' % mode)
+                elif entry == 'nested':
+                    # an instructor helper (mock_function) that itself calls student code on the same sandbox while the outer run is active
+                    # (same thread: nested executions that each start their own timeout thread are not generated, see ASSUMPTIONS)
+                    sb.threaded = False
+                    what = '%s(%s, threaded=%s, tracer=%s)' % (entry, mode, sb.threaded, op['tracer'])
+                    sb.mock_function('ask_inner', lambda m: sb.call('finish', m))
+                    try:
+                        sb.run('print("outer before")\nask_inner(%r)\nprint("outer after")\n' % mode, filename='answer.py')
+                    finally:
+                        sb.clear_mocked_function('ask_inner')
                 else:
                     sys.modules.pop('helper', None)
                     sb.run('import helper\nprint(helper.helper_value())\nfinish(%r)\n' % mode, filename='answer.py')
